@@ -391,12 +391,29 @@ func headersFromExpr(headers *expr.MappedAttributeExpr) map[string]*Header {
 	}
 	res := make(map[string]*Header)
 	codegen.WalkMappedAttr(headers, func(_, n string, _ bool, at *expr.AttributeExpr) error { // nolint: errcheck
+		// A header is described like a non-body parameter: its type must be one
+		// of "string", "number", "integer", "boolean" or "array" (with items).
+		p := paramFor(at, n, "header", false)
 		header := &Header{
-			Default:     at.DefaultValue,
-			Description: at.Description,
-			Type:        at.Type.Name(),
+			Default:          p.Default,
+			Description:      p.Description,
+			Type:             p.Type,
+			Format:           p.Format,
+			Items:            p.Items,
+			Maximum:          p.Maximum,
+			ExclusiveMaximum: p.ExclusiveMaximum,
+			Minimum:          p.Minimum,
+			ExclusiveMinimum: p.ExclusiveMinimum,
+			MaxLength:        p.MaxLength,
+			MinLength:        p.MinLength,
+			Pattern:          p.Pattern,
+			MaxItems:         p.MaxItems,
+			MinItems:         p.MinItems,
+			Enum:             p.Enum,
 		}
-		initValidations(at, header)
+		if p.Items != nil {
+			header.CollectionFormat = "csv"
+		}
 		res[n] = header
 		return nil
 	})
